@@ -126,7 +126,7 @@ Q2ManyNext == steps < MaxSteps /\
   \* identifiers are taken round-robin (the next free one after the last step's number), as a client with a counter does:
   \* an identifier comes back only after many others, long after the queue's ring has gone round
   \/ \E n \in 1..3 : \E id \in {i \in 1..40 : i \notin Q2Open /\ i = ((steps * 7) % 40) + 1} :
-        Publish2(c1, <<"a">>, FALSE, IF id % 2 = 0 THEN "x" ELSE "y", id, FALSE)
+        Publish2(c1, <<"a">>, FALSE, "m" \o ToString(id), id, FALSE)      \* one payload per identifier
   \* a PUBREL repeated for an exchange that is complete (its PUBCOMP was lost): answered again, nothing else happens
   \/ \E id \in {i \in 1..40 : i \notin Q2Open /\ i = ((steps * 11) % 40) + 1} : Pubrel(c1, id)
   \/ (sess[k1].p2in # <<>> /\ Pubrel(c1, Head(sess[k1].p2in).id))
